@@ -137,7 +137,7 @@ def r1_guarded_sort(w):
                     same = _same_collection(v, ct['args'][0], coll) if ct['args'] else False
                     ok, why = _dup_check_sound(w, fb, kinds)
                     if same and ok:
-                        have['nodup'] = have['nodup'] or (vals == {True})
+                        have['nodup'] = have['nodup'] or (vals == ({False} if _dup_inverted(w, fb) else {True}))
                         matched = True
                     elif not matched:
                         others.append('%s: %s' % (fb.short, why))
@@ -239,7 +239,7 @@ def _any_pred_accepts_comments(w, v, ct):
 
 
 def _same_collection(v, operand, coll):
-    src = v.pv.through(v.pv.origins_operand(operand), re.compile(r'Deref>::deref$|Deref::deref$|::iter$|::as_slice$|IntoIterator.*into_iter$|DerefMut>::deref_mut$'))
+    src = v.pv.through(v.pv.origins_operand(operand), re.compile(r'Deref>::deref$|Deref::deref$|::iter$|::as_slice$|IntoIterator.*into_iter$|DerefMut>::deref_mut$|Iterator>?::(copied|cloned|by_ref)$'))
     return bool(src) and src == coll
 
 
@@ -297,6 +297,10 @@ def _dup_check_iterator_form(w, fb, kinds):
     the three control-flow obligations of the loop form hold by the contract of Iterator::all."""
     v = BodyView(w, fb)
     rets = {strip_casts(o) for o in v.pv.peel(v.pv._origins_local(0, frozenset()))}
+    if len(rets) == 1 and next(iter(rets))[0] == 'unop' and next(iter(rets))[1][2] == 'Not':
+        # `!names.all(|n| seen.insert(n))`: the same test answering "has duplicates" (the caller's polarity is checked at the guard, see _dup_inverted)
+        o_ = next(iter(rets))
+        rets = {strip_casts(o) for o in v.pv.peel(v.pv.origins_operand(fb.blocks[o_[1][0]]['stmts'][o_[1][1]]['rv']['a']))}
     if len(rets) != 1 or next(iter(rets))[0] != 'call':
         return None
     at = v.pv.call_term(next(iter(rets)))
@@ -337,66 +341,76 @@ def _dup_check_iterator_form(w, fb, kinds):
     if not (base and all(o[0] == 'param' and not o[2] for o in base)):
         out.append((False, {'fn': fb.short, 'obligation': 'kind-dispatch'}, 'filter_map does not run over the item list handed to %s' % fb.short))
         return out
-    cb = closure_of(fm[0]['args'][1])
+    fop = fm[0]['args'][1]
+    cb = closure_of(fop)
+    node_param = 2
+    if cb is None and fop.get('o') == 'const' and 'fn' in fop:
+        cb = w.bodies.get(fop['fn']['def']['id'])
+        node_param = 1
     if cb is None:
-        out.append((False, {'fn': fb.short, 'obligation': 'kind-dispatch'}, 'filter_map closure not found'))
+        out.append((False, {'fn': fb.short, 'obligation': 'kind-dispatch'}, 'the function that yields the names was not found'))
         return out
+    out += _name_extraction_obligations(w, fb, cb, node_param)
+    return out
+
+
+def _name_extraction_obligations(w, fb, cb, node_param):
+    """the function / closure that maps an item node to its bound name: evaluated per item kind (every name-binding kind yields Some on every path,
+    whatever the dispatch looks like: a match on the kind, a chain of `if let Some(x) = node.cast()`, `cast().map(..)`), and by provenance the payload of
+    every Some it builds is name() of a plain item / new_name() of a renamed one"""
+    from sites import run_function
+    from kindflow import Node as KNode, Agg as KAgg
     import inline
-    cb = inline.desugared(w, cb)          # `node.cast::<T>().map(|i| i.name())` in an arm reads as the match it stands for
-    cv = BodyView(w, cb)
-    kind_sw = None
-    for bi, blk in enumerate(cb.blocks):
-        t = blk['term']
-        if t['t'] == 'switch' and 'kind' in cv.switch_atom(bi) and 'discr' in cv.switch_atom(bi):
-            kind_sw = bi
-    if kind_sw is None:
-        out.append((False, {'fn': fb.short, 'obligation': 'kind-dispatch'}, 'no dispatch on the item kind found in the filter_map closure of %s' % fb.short))
-        return out
-    by_kind = {kinds.get(val): tgt for val, tgt in cb.blocks[kind_sw]['term']['targets']}
-    names = set()
-    for k, accessor in {'ImportItemPath': 'name', 'RenamedImportItem': 'new_name'}.items():
+    out = []
+    for k in ('ImportItemPath', 'RenamedImportItem'):
         cons = {'fn': fb.short, 'obligation': 'item-kind-inserted', 'kind': k}
-        tgt = by_kind.get(k)
-        if tgt is None:
-            out.append((False, cons, 'items of kind %s are not examined by the duplicate test: `import "m": a, x as a` could be sorted' % k))
+        try:
+            res = run_function(w, cb, {node_param: KNode('parent', k)}, converter_pred=lambda tb: False)
+        except Exception as e:
+            res = None
+        if not res:
+            out.append((False, cons, 'the name extraction %s could not be evaluated for %s items' % (cb.short, k)))
             continue
-        # inside the arm of kind k a cast::<T>() with k in kinds(T) cannot fail: its None edge is infeasible
-        infeasible = set()
-        for bi in cfg.reachable_from(cb, tgt, stop=set()):
-            ct = cb.blocks[bi]['term']
-            if ct['t'] != 'call':
-                continue
-            mm = re.search(r"SyntaxNode::cast::<'?[^,>]*,?\s*typst_syntax::ast::(\w+)", callee_str(ct) or '')
-            if not mm or k not in grammar.load()['kinds_of'].get(mm.group(1), []):
-                continue
-            nb_ = ct.get('target')
-            if nb_ is not None and cb.blocks[nb_]['term']['t'] == 'switch':
-                for e_tgt, label in cv.switch_edges(nb_):
-                    if 'None' in cv.label_values(nb_, label):
-                        infeasible.add(e_tgt)
-        reach = cfg.reachable_from(cb, tgt, stop=infeasible) - infeasible
-        somes = [(bi, st) for bi in reach for st in cb.blocks[bi]['stmts'] if st['s'] == 'assign' and st['rv']['r'] == 'agg' and st['rv'].get('vname') == 'Some' and st['p']['l'] == 0]
-        nones = [bi for bi in reach for st in cb.blocks[bi]['stmts'] if st['s'] == 'assign' and st['rv']['r'] == 'agg' and st['rv'].get('vname') == 'None' and st['p']['l'] == 0]
-        if not somes or nones:
-            out.append((False, cons, 'an item of kind %s can be left out of the name set' % k))
-            continue
-        good = True
-        for bi, st in somes:
-            ors = cv.pv.through(cv.pv.origins_operand(st['rv']['ops'][0]), re.compile(r'Ident::<.*>::as_str$|::as_str$|Deref>::deref$|::get$'))
-            ns = {(callee_path(cv.pv.call_term(o)) or '').rsplit('::', 1)[-1] if o[0] == 'call' else o[0] for o in ors}
-            names |= ns
-            if ns != {accessor} or not all(o[0] == 'call' and k in (callee_path(cv.pv.call_term(o)) or '') for o in ors):
-                good = False
-        if good:
-            out.append((True, cons, 'yielded under its bound name (%s())' % accessor))
+        vals = [r_[0] for r_ in res]
+        if all(isinstance(x, KAgg) and x.adt.endswith('Option') and x.variant == 'Some' for x in vals):
+            out.append((True, cons, 'an item of kind %s always yields a name (%d paths evaluated)' % (k, len(vals))))
         else:
-            out.append((False, cons, 'the name yielded for %s does not come from %s()' % (k, accessor)))
-    cons = {'fn': fb.short, 'obligation': 'inserted-value', 'from': sorted(names)}
-    if names and names <= {'name', 'new_name'}:
+            out.append((False, cons, 'an item of kind %s can be left out of the name set (the extraction answers None / something unknown on some path)' % k))
+    from rules import c05
+    db = inline.inline_body(w, cb, lambda tb, t_, d: tb.crate is w.core and tb.short.startswith('pretty::import::') and not c05.is_recursive(w, tb))
+    dv = BodyView(w, db)
+    names, typed_ok = set(), True
+    n_some = 0
+    for bi, blk in enumerate(db.blocks):
+        if blk['cleanup']:
+            continue
+        for st in blk['stmts']:
+            if st['s'] == 'assign' and st['rv']['r'] == 'agg' and st['rv'].get('vname') == 'Some' and st['rv'].get('path', '').endswith('option::Option') \
+                    and db.locals[st['p']['l']]['ty']['s'].startswith('std::option::Option<&') and 'str' in db.locals[st['p']['l']]['ty']['s']:
+                n_some += 1
+                ors = dv.pv.through(dv.pv.origins_operand(st['rv']['ops'][0]), re.compile(r'Ident::<.*>::as_str$|::as_str$|Deref>::deref$|::get$'))
+                for o in ors:
+                    if o[0] != 'call':
+                        names.add(o[0])
+                        continue
+                    p_ = callee_path(dv.pv.call_term(o)) or ''
+                    nm = p_.rsplit('::', 1)[-1]
+                    names.add(nm)
+                    if not ((nm == 'name' and 'ImportItemPath' in p_) or (nm == 'new_name' and 'RenamedImportItem' in p_)):
+                        typed_ok = False
+    cons = {'fn': fb.short, 'obligation': 'inserted-value', 'from': sorted(names), 'some_sites': n_some}
+    if n_some and names and names <= {'name', 'new_name'} and typed_ok:
         out.append((True, cons, 'the set holds bound names only'))
     else:
         out.append((False, cons, 'the value inserted into the set is not the bound name: %s' % sorted(names)))
     return out
+
+
+def _dup_inverted(w, fb):
+    """the duplicate test answers true for `has duplicates` (`!names.all(insert)`) instead of `all names distinct`"""
+    v = BodyView(w, fb)
+    rets = {strip_casts(o) for o in v.pv.peel(v.pv._origins_local(0, frozenset()))}
+    return len(rets) == 1 and next(iter(rets))[0] == 'unop' and next(iter(rets))[1][2] == 'Not'
 
 
 def _dup_check_obligations(w, fb, kinds):
